@@ -32,6 +32,16 @@ enum VKind {
     Struct(HashMap<String, bool>), // boxed? per field
 }
 
+/// Everything needed to generate the constructor function and the erased variant.
+#[derive(Clone)]
+struct VInfo {
+    kind: VKind,
+    /// declared field order (struct variants) with types
+    fields: Vec<(Option<String>, Type, bool)>,
+    /// `#[cfg(..)]` attributes of the variant
+    cfgs: Vec<syn::Attribute>,
+}
+
 fn type_is_cheap(t: &Type) -> bool {
     let s = t.to_token_stream().to_string().replace(' ', "");
     const CHEAP: &[&str] = &[
@@ -64,6 +74,7 @@ fn copy_tree(src: &Path, dst: &Path, skip: &[&str]) {
 
 struct Xform<'a> {
     variants: &'a HashMap<String, VKind>,
+    infos: &'a HashMap<String, VInfo>,
     keep_tests: bool,
     repr: bool,
     tio: bool,
@@ -145,7 +156,7 @@ impl<'a> VisitMut for Xform<'a> {
         widen(&mut i.vis, self.stats);
         // bon builders and ouroboros self-referencing structs generate code that depends
         // on field visibility; leave those alone.
-        let has_macro_derive = i.attrs.iter().any(|a| {
+        let has_macro_derive = i.attrs.iter().filter(|a| !a.path().is_ident("doc")).any(|a| {
             let s = a.to_token_stream().to_string();
             s.contains("self_referencing") || s.contains("Builder") || s.contains("bon")
         });
@@ -168,6 +179,7 @@ impl<'a> VisitMut for Xform<'a> {
             }
         }
         if self.file.ends_with("error.rs") && i.ident == "Details" && !self.variants.is_empty() {
+            i.attrs.push(parse_quote!(#[cfg(not(kani))]));
             for v in i.variants.iter_mut() {
                 for f in v.fields.iter_mut() {
                     if !type_is_cheap(&f.ty) {
@@ -226,9 +238,10 @@ impl<'a> VisitMut for Xform<'a> {
     }
 
     fn visit_path_mut(&mut self, p: &mut syn::Path) {
-        if self.tio && p.segments.len() >= 2 && p.segments[0].ident == "std" && p.segments[1].ident == "io" {
+        if self.tio && p.segments.len() >= 2 && p.segments[0].ident == "std" && redirect_of(&p.segments[1].ident).is_some() {
+            let to = redirect_of(&p.segments[1].ident).unwrap();
             let rest: Vec<syn::PathSegment> = p.segments.iter().skip(2).cloned().collect();
-            let mut np: syn::Path = parse_quote!(crate::vio);
+            let mut np: syn::Path = parse_quote!(crate::#to);
             for seg in rest {
                 np.segments.push(seg);
             }
@@ -246,13 +259,11 @@ impl<'a> VisitMut for Xform<'a> {
                     if let Some(v) = details_variant(&p.path) {
                         if let Some(VKind::Tuple(boxed)) = self.variants.get(&v) {
                             if boxed.len() == call.args.len() {
-                                for (i, a) in call.args.iter_mut().enumerate() {
+                                for a in call.args.iter_mut() {
                                     self.visit_expr_mut(a);
-                                    if boxed[i] {
-                                        let inner = a.clone();
-                                        *a = parse_quote!(Box::new(#inner));
-                                    }
                                 }
+                                let id = syn::Ident::new(&v, proc_macro2::Span::call_site());
+                                call.func = Box::new(parse_quote!(crate::error::mk::#id));
                                 self.stats.ctor_sites += 1;
                                 handled = true;
                             }
@@ -266,49 +277,42 @@ impl<'a> VisitMut for Xform<'a> {
             Expr::Path(p) => {
                 if p.qself.is_none() {
                     if let Some(v) = details_variant(&p.path) {
-                        if let Some(VKind::Tuple(boxed)) = self.variants.get(&v) {
-                            if boxed.iter().any(|b| *b) {
-                                let path = p.path.clone();
-                                let names: Vec<syn::Ident> = (0..boxed.len())
-                                    .map(|i| syn::Ident::new(&format!("__a{i}"), proc_macro2::Span::call_site()))
-                                    .collect();
-                                let args: Vec<Expr> = names
-                                    .iter()
-                                    .zip(boxed.iter())
-                                    .map(|(n, b)| -> Expr {
-                                        if *b {
-                                            parse_quote!(Box::new(#n))
-                                        } else {
-                                            parse_quote!(#n)
-                                        }
-                                    })
-                                    .collect();
-                                *e = parse_quote!((|#(#names),*| #path(#(#args),*)));
-                                self.stats.path_sites += 1;
-                                return;
-                            }
+                        if let Some(VKind::Tuple(_)) = self.variants.get(&v) {
+                            let id = syn::Ident::new(&v, proc_macro2::Span::call_site());
+                            *e = parse_quote!(crate::error::mk::#id);
+                            self.stats.path_sites += 1;
+                            return;
                         }
                     }
                 }
                 visit_mut::visit_expr_mut(self, e);
             }
-            Expr::Struct(s) => {
-                if let Some(v) = details_variant(&s.path) {
-                    if let Some(VKind::Struct(fields)) = self.variants.get(&v) {
-                        for fv in s.fields.iter_mut() {
-                            self.visit_expr_mut(&mut fv.expr);
-                            let name = match &fv.member {
-                                syn::Member::Named(i) => i.to_string(),
-                                syn::Member::Unnamed(i) => i.index.to_string(),
-                            };
-                            if fields.get(&name).copied().unwrap_or(false) {
-                                let inner = fv.expr.clone();
-                                fv.expr = parse_quote!(Box::new(#inner));
-                                fv.colon_token = Some(Default::default());
+            Expr::Struct(st) => {
+                if let Some(v) = details_variant(&st.path) {
+                    if let (Some(VKind::Struct(_)), Some(info)) = (self.variants.get(&v), self.infos.get(&v)) {
+                        if st.rest.is_none() && st.fields.len() == info.fields.len() {
+                            // evaluate the field expressions in *source* order, pass them in declaration order
+                            let mut lets: Vec<syn::Stmt> = vec![];
+                            for fv in st.fields.iter_mut() {
+                                self.visit_expr_mut(&mut fv.expr);
+                                let name = match &fv.member {
+                                    syn::Member::Named(i) => i.to_string(),
+                                    syn::Member::Unnamed(i) => i.index.to_string(),
+                                };
+                                let tmp = syn::Ident::new(&format!("__f_{name}"), proc_macro2::Span::call_site());
+                                let ex = fv.expr.clone();
+                                lets.push(parse_quote!(let #tmp = #ex;));
                             }
+                            let args: Vec<syn::Ident> = info
+                                .fields
+                                .iter()
+                                .map(|(n, _, _)| syn::Ident::new(&format!("__f_{}", n.as_ref().unwrap()), proc_macro2::Span::call_site()))
+                                .collect();
+                            let id = syn::Ident::new(&v, proc_macro2::Span::call_site());
+                            *e = parse_quote!({ #(#lets)* crate::error::mk::#id(#(#args),*) });
+                            self.stats.struct_sites += 1;
+                            return;
                         }
-                        self.stats.struct_sites += 1;
-                        return;
                     }
                 }
                 visit_mut::visit_expr_mut(self, e);
@@ -316,6 +320,18 @@ impl<'a> VisitMut for Xform<'a> {
             _ => visit_mut::visit_expr_mut(self, e),
         }
     }
+}
+
+/// std sub-modules replaced by injected model modules: (std module, crate module)
+const REDIRECT: &[(&str, &str)] = &[("io", "vio"), ("collections", "vmap")];
+
+fn redirect_of(id: &syn::Ident) -> Option<syn::Ident> {
+    for (from, to) in REDIRECT {
+        if id == from {
+            return Some(syn::Ident::new(to, proc_macro2::Span::call_site()));
+        }
+    }
+    None
 }
 
 /// `use std::io::X` -> `use crate::vio::X`; `use std::{a, io::{X}}` -> `use {std::{a}, crate::vio::{X}}`.
@@ -326,13 +342,16 @@ fn rewrite_use_io(tree: &mut syn::UseTree, stats: &mut Stats) {
         return;
     }
     match &mut *p.tree {
-        T::Path(inner) if inner.ident == "io" => {
+        T::Path(inner) if redirect_of(&inner.ident).is_some() => {
+            let to = redirect_of(&inner.ident).unwrap();
             let rest = (*inner.tree).clone();
-            *tree = parse_quote!(crate::vio::#rest);
+            *tree = parse_quote!(crate::#to::#rest);
             stats.io_uses += 1;
         }
-        T::Name(n) if n.ident == "io" => {
-            *tree = parse_quote!(crate::vio as io);
+        T::Name(n) if redirect_of(&n.ident).is_some() => {
+            let to = redirect_of(&n.ident).unwrap();
+            let from = n.ident.clone();
+            *tree = parse_quote!(crate::#to as #from);
             stats.io_uses += 1;
         }
         T::Group(g) => {
@@ -340,11 +359,16 @@ fn rewrite_use_io(tree: &mut syn::UseTree, stats: &mut Stats) {
             let mut moved: Vec<T> = vec![];
             for it in g.items.iter() {
                 match it {
-                    T::Path(ip) if ip.ident == "io" => {
+                    T::Path(ip) if redirect_of(&ip.ident).is_some() => {
+                        let to = redirect_of(&ip.ident).unwrap();
                         let rest = (*ip.tree).clone();
-                        moved.push(parse_quote!(crate::vio::#rest));
+                        moved.push(parse_quote!(crate::#to::#rest));
                     }
-                    T::Name(n) if n.ident == "io" => moved.push(parse_quote!(crate::vio as io)),
+                    T::Name(n) if redirect_of(&n.ident).is_some() => {
+                        let to = redirect_of(&n.ident).unwrap();
+                        let from = n.ident.clone();
+                        moved.push(parse_quote!(crate::#to as #from));
+                    }
                     other => keep.push(other.clone()),
                 }
             }
@@ -377,32 +401,227 @@ fn item_is_test(it: &Item) -> bool {
     is_cfg_test(attrs)
 }
 
-fn collect_variants(error_rs: &Path) -> HashMap<String, VKind> {
+fn collect_variants(error_rs: &Path) -> (HashMap<String, VKind>, Vec<(String, VInfo)>) {
     let src = fs::read_to_string(error_rs).expect("read error.rs");
     let f = syn::parse_file(&src).expect("parse error.rs");
     let mut out = HashMap::new();
+    let mut infos = Vec::new();
     for it in f.items {
         if let Item::Enum(e) = it {
             if e.ident == "Details" {
                 for v in e.variants {
-                    let k = match &v.fields {
-                        Fields::Unit => VKind::Unit,
-                        Fields::Unnamed(u) => {
-                            VKind::Tuple(u.unnamed.iter().map(|f| !type_is_cheap(&f.ty)).collect())
-                        }
-                        Fields::Named(n) => VKind::Struct(
+                    let cfgs: Vec<syn::Attribute> = v.attrs.iter().filter(|a| a.path().is_ident("cfg")).cloned().collect();
+                    let (k, fields) = match &v.fields {
+                        Fields::Unit => (VKind::Unit, vec![]),
+                        Fields::Unnamed(u) => (
+                            VKind::Tuple(u.unnamed.iter().map(|f| !type_is_cheap(&f.ty)).collect()),
+                            u.unnamed.iter().map(|f| (None, f.ty.clone(), !type_is_cheap(&f.ty))).collect(),
+                        ),
+                        Fields::Named(n) => (
+                            VKind::Struct(
+                                n.named
+                                    .iter()
+                                    .map(|f| (f.ident.as_ref().unwrap().to_string(), !type_is_cheap(&f.ty)))
+                                    .collect(),
+                            ),
                             n.named
                                 .iter()
-                                .map(|f| (f.ident.as_ref().unwrap().to_string(), !type_is_cheap(&f.ty)))
+                                .map(|f| (Some(f.ident.as_ref().unwrap().to_string()), f.ty.clone(), !type_is_cheap(&f.ty)))
                                 .collect(),
                         ),
                     };
-                    out.insert(v.ident.to_string(), k);
+                    out.insert(v.ident.to_string(), k.clone());
+                    infos.push((v.ident.to_string(), VInfo { kind: k, fields, cfgs }));
                 }
             }
         }
     }
+    (out, infos)
+}
+
+/// Pass 0: which `Details` variants are destructured by a pattern in non-test code (those keep
+/// their payload under cfg(kani); all others become unit variants there).
+struct PatScan {
+    kept: std::collections::BTreeSet<String>,
+}
+impl<'ast> syn::visit::Visit<'ast> for PatScan {
+    fn visit_pat_tuple_struct(&mut self, p: &'ast syn::PatTupleStruct) {
+        if let Some(v) = details_variant(&p.path) {
+            self.kept.insert(v);
+        }
+        syn::visit::visit_pat_tuple_struct(self, p);
+    }
+    fn visit_pat_struct(&mut self, p: &'ast syn::PatStruct) {
+        if let Some(v) = details_variant(&p.path) {
+            self.kept.insert(v);
+        }
+        syn::visit::visit_pat_struct(self, p);
+    }
+    fn visit_macro(&mut self, m: &'ast syn::Macro) {
+        // macro bodies are opaque token streams: any `Details::V (` / `Details::V {` inside keeps V
+        let toks: Vec<proc_macro2::TokenTree> = flatten(m.tokens.clone());
+        let mut i = 0;
+        while i + 4 < toks.len() {
+            if let (proc_macro2::TokenTree::Ident(a), proc_macro2::TokenTree::Punct(c1), proc_macro2::TokenTree::Punct(c2), proc_macro2::TokenTree::Ident(v)) =
+                (&toks[i], &toks[i + 1], &toks[i + 2], &toks[i + 3])
+            {
+                if a == "Details" && c1.as_char() == ':' && c2.as_char() == ':' {
+                    if let proc_macro2::TokenTree::Group(_) = &toks[i + 4] {
+                        self.kept.insert(v.to_string());
+                    }
+                }
+            }
+            i += 1;
+        }
+    }
+    fn visit_item_mod(&mut self, m: &'ast syn::ItemMod) {
+        if !is_cfg_test(&m.attrs) {
+            syn::visit::visit_item_mod(self, m);
+        }
+    }
+    fn visit_item_fn(&mut self, f: &'ast syn::ItemFn) {
+        if !is_cfg_test(&f.attrs) {
+            syn::visit::visit_item_fn(self, f);
+        }
+    }
+}
+fn flatten(ts: proc_macro2::TokenStream) -> Vec<proc_macro2::TokenTree> {
+    let mut out = vec![];
+    for t in ts {
+        match &t {
+            proc_macro2::TokenTree::Group(g) => {
+                out.push(t.clone());
+                out.extend(flatten(g.stream()));
+            }
+            _ => out.push(t),
+        }
+    }
     out
+}
+
+/// applies the std::io / std::collections redirection to a detached syntax fragment
+struct PathFix;
+impl VisitMut for PathFix {
+    fn visit_path_mut(&mut self, p: &mut syn::Path) {
+        if p.segments.len() >= 2 && p.segments[0].ident == "std" && redirect_of(&p.segments[1].ident).is_some() {
+            let to = redirect_of(&p.segments[1].ident).unwrap();
+            let rest: Vec<syn::PathSegment> = p.segments.iter().skip(2).cloned().collect();
+            let mut np: syn::Path = parse_quote!(crate::#to);
+            for seg in rest {
+                np.segments.push(seg);
+            }
+            *p = np;
+        }
+        visit_mut::visit_path_mut(self, p);
+    }
+}
+
+/// error.rs additions: the payload-erased twin of `Details` for cfg(kani) and the constructor
+/// functions `mk::V(..)` every construction site now calls.
+fn append_error_twin(ast: &mut syn::File, infos: &[(String, VInfo)], kept: &std::collections::BTreeSet<String>) {
+    // 1. the erased enum = clone of the (already boxed) native enum
+    let mut twin: Option<syn::ItemEnum> = None;
+    for it in ast.items.iter() {
+        if let Item::Enum(e) = it {
+            if e.ident == "Details" {
+                twin = Some(e.clone());
+            }
+        }
+    }
+    let mut twin = twin.expect("Details enum not found in error.rs");
+    twin.attrs.retain(|a| {
+        let s = a.to_token_stream().to_string();
+        !(s.contains("derive") || s.contains("cfg (not (kani))") || s.contains("cfg(not(kani))"))
+    });
+    twin.attrs.push(parse_quote!(#[cfg(kani)]));
+    for v in twin.variants.iter_mut() {
+        v.attrs.retain(|a| a.path().is_ident("cfg") || a.path().is_ident("deprecated") || a.path().is_ident("doc"));
+        if kept.contains(&v.ident.to_string()) {
+            for f in v.fields.iter_mut() {
+                f.attrs.clear();
+            }
+        } else {
+            v.fields = Fields::Unit;
+        }
+    }
+    ast.items.push(Item::Enum(twin));
+    ast.items.push(parse_quote!(
+        #[cfg(kani)]
+        impl std::fmt::Display for Details {
+            fn fmt(&self, _f: &mut std::fmt::Formatter<'_>) -> std::fmt::Result {
+                Ok(())
+            }
+        }
+    ));
+    ast.items.push(parse_quote!(
+        #[cfg(kani)]
+        impl std::error::Error for Details {}
+    ));
+    // 2. constructor functions
+    let mut fns: Vec<syn::ItemFn> = vec![];
+    for (name, info) in infos {
+        if info.fields.is_empty() {
+            continue;
+        }
+        let id = syn::Ident::new(name, proc_macro2::Span::call_site());
+        let args: Vec<syn::Ident> = (0..info.fields.len())
+            .map(|i| syn::Ident::new(&format!("a{i}"), proc_macro2::Span::call_site()))
+            .collect();
+        let tys: Vec<Type> = info
+            .fields
+            .iter()
+            .map(|(_, t, _)| {
+                let mut t = t.clone();
+                PathFix.visit_type_mut(&mut t);
+                t
+            })
+            .collect();
+        let wrapped: Vec<Expr> = info
+            .fields
+            .iter()
+            .zip(args.iter())
+            .map(|((_, _, boxed), a)| -> Expr { if *boxed { parse_quote!(Box::new(#a)) } else { parse_quote!(#a) } })
+            .collect();
+        let full: Expr = match &info.kind {
+            VKind::Struct(_) => {
+                let names: Vec<syn::Ident> = info
+                    .fields
+                    .iter()
+                    .map(|(n, _, _)| syn::Ident::new(n.as_ref().unwrap(), proc_macro2::Span::call_site()))
+                    .collect();
+                parse_quote!(Details::#id { #(#names: #wrapped),* })
+            }
+            _ => parse_quote!(Details::#id(#(#wrapped),*)),
+        };
+        let erased: Expr = if kept.contains(name) {
+            full.clone()
+        } else {
+            parse_quote!({ #(std::mem::forget(#args);)* Details::#id })
+        };
+        let cfgs = &info.cfgs;
+        fns.push(parse_quote!(
+            #(#cfgs)*
+            #[allow(non_snake_case, clippy::too_many_arguments, deprecated)]
+            pub fn #id(#(#args: #tys),*) -> Details {
+                #[cfg(not(kani))]
+                {
+                    #full
+                }
+                #[cfg(kani)]
+                {
+                    #erased
+                }
+            }
+        ));
+    }
+    ast.items.push(parse_quote!(
+        /// Injected by /verif/shadowgen (T-err): one constructor per payload-carrying variant.
+        pub mod mk {
+            #[allow(unused_imports)]
+            use super::*;
+            #(#fns)*
+        }
+    ));
 }
 
 fn walk_rs(dir: &Path, out: &mut Vec<PathBuf>) {
@@ -447,14 +666,23 @@ fn main() {
         copy_tree(&repo.join(sub), &out.join(sub), &["target", ".git"]);
     }
 
-    let variants = if no_box {
-        HashMap::new()
+    let (variants, info_list) = if no_box {
+        (HashMap::new(), Vec::new())
     } else {
         collect_variants(&repo.join("avro/src/error.rs"))
     };
+    let infos: HashMap<String, VInfo> = info_list.iter().cloned().collect();
     let mut files = vec![];
     walk_rs(&out.join("avro/src"), &mut files);
     files.sort();
+    // pass 0: variants destructured by some pattern keep their payload under cfg(kani)
+    let mut scan = PatScan { kept: Default::default() };
+    for p in &files {
+        if let Ok(ast) = syn::parse_file(&fs::read_to_string(p).unwrap()) {
+            syn::visit::Visit::visit_file(&mut scan, &ast);
+        }
+    }
+    let kept = scan.kept;
     let mut stats = Stats::default();
     let mut failed = vec![];
     for p in &files {
@@ -468,6 +696,7 @@ fn main() {
         };
         let mut x = Xform {
             variants: &variants,
+            infos: &infos,
             keep_tests,
             repr,
             tio,
@@ -476,8 +705,12 @@ fn main() {
             stats: &mut stats,
         };
         x.visit_file_mut(&mut ast);
+        if !no_box && p.ends_with("avro/src/error.rs") {
+            append_error_twin(&mut ast, &info_list, &kept);
+        }
         if tio && p.ends_with("avro/src/lib.rs") {
             ast.items.push(parse_quote!(pub mod vio;));
+            ast.items.push(parse_quote!(pub mod vmap;));
         }
         let text = prettyplease::unparse(&ast);
         fs::write(p, text).unwrap();
@@ -485,6 +718,7 @@ fn main() {
     }
     if tio {
         fs::copy(inject_dir.join("vio.rs"), out.join("avro/src/vio.rs")).expect("copy vio.rs");
+        fs::copy(inject_dir.join("vmap.rs"), out.join("avro/src/vmap.rs")).expect("copy vmap.rs");
     }
     println!(
         "shadowgen: io_paths={} io_uses={}",
